@@ -132,6 +132,15 @@ def run_property(pid, tier="quick", seed=0, replay_only=None):
         if tier == "thorough" or sb.get("quick"):
             standins.append(props.run_bounded(sb, pid, tier, seed))
 
+    # mutation self-test of the contracts (thorough tier only)
+    selftest = None
+    if tier == "thorough":
+        from pyvc import selftest as _st
+        try:
+            selftest = _st.run(set(quals), timeout=20, root=REPO)
+        except Exception:
+            selftest = {"error": traceback.format_exc()[-600:]}
+
     # replay
     out_lines = []
     rdir = os.path.join(HERE, "replay_out", pid)
@@ -239,6 +248,7 @@ def run_property(pid, tier="quick", seed=0, replay_only=None):
             "undecided_at_baseline_not_counted": sorted(exp_names),
             "samples": samples,
             "bounded_standins": [{k: v for k, v in sb.items() if k != "violations"} for sb in standins],
+            "mutation_selftest": selftest,
             "not_proved_clauses": P.get("not_proved", []),
             "explanation": P.get("explanation", ""),
         },
@@ -253,6 +263,9 @@ def run_property(pid, tier="quick", seed=0, replay_only=None):
         pid, tier, n_dis, n_obl, ev["coverage"]["path_instances"], len(quals), solver_s, ev["wall_s"]))
     for l in out_lines:
         print(l)
+    if selftest and selftest.get("missed"):
+        for m_ in selftest["missed"]:
+            print("SELFTEST-WEAK: a deliberate body edit still verifies: " + m_)
     if crashes:
         for r in crashes:
             print("CHECKER-ERROR %s: %s" % (r["function"], r["undecided"][-400:]))
